@@ -951,3 +951,159 @@ def H8c(vc):
                   and st.at_exec['subregistry_var'] is reg and st.at_exec['subexecuted_var'] is False)
     vc.ensure('errors_propagate', escaped is st.exec_exc)
     return ('body-ok', len(execs), type(escaped).__name__)
+
+
+# =============================================================================================== U4
+class FakeFuture:
+    """asyncio.Future / Task as the stop-flag checker uses it: awaiting a finished one gives its result at once."""
+    def __init__(self, name, result=None, coro=None):
+        self.name, self._result, self.coro = name, result, coro
+
+    def __await__(self):
+        return self._result
+        yield
+
+    def __repr__(self):
+        return f'<future {self.name}>'
+
+
+@harness('U4', targets=['kopf._core.reactor.running.stop_flag_checker', 'kopf._core.reactor.running.ultimate_termination'], props=['C20'],
+         clauses=['checker.waits_for_all_given_flags', 'checker.returns_only_on_flag_or_cancellation', 'checker.never_fails',
+                  'ultimate.sleeps_until_shutdown', 'ultimate.kill_scheduled_iff_unintended_and_timeout', 'ultimate.kill_after_exactly_the_timeout',
+                  'ultimate.never_fails'],
+         canaries=['canary.checker.never_cancelled', 'canary.ultimate.always_schedules', 'canary.ultimate.never_schedules'],
+         trusted=['asyncio.wait(fs, return_when=FIRST_COMPLETED): suspends until one of fs is done; returns (done, pending), done non-empty',
+                  'aioadapters.wait_flag(flag): a coroutine that finishes when the flag is raised (every kind of flag: match over the 4 kinds); '
+                  'aioadapters.check_flag(flag): None for no flag, else whether it is raised',
+                  'asyncio.create_task(coro): a task running coro', 'a fresh asyncio.Event().wait() never returns, it can only be cancelled',
+                  'loop.call_later(delay, fn, *args): fn(*args) runs `delay` seconds later if the loop is still alive'],
+         assumes=['stop_flag_checker: at least one of signal_flag/stop_flag is given (spawn_tasks always passes a Future as signal_flag)'])
+def U4(vc):
+    """
+    The two root tasks behind "a stop is requested => the whole operator shuts down ... and the run call returns within the
+    bounded grace periods" (C20; run_tasks U3 stops everything as soon as ANY root task finishes):
+    stop_flag_checker(signal_flag, stop_flag):
+      checker.waits_for_all_given_flags    one asyncio.wait(FIRST_COMPLETED, no timeout) over exactly the signal future (if given)
+                                           and ONE task of aioadapters.wait_flag(<the stop flag given>) (if given): raising either wakes it;
+      checker.returns_only_on_flag_or_cancellation   it finishes -- triggering the shutdown -- only after that wait has returned (a
+                                           flag is raised) or when it is cancelled itself (the operator is stopping anyway);
+      checker.never_fails                  whatever the raised flag carries (None, a signal number, any object), it ends normally.
+    ultimate_termination(settings, stop_flag)  (settings.process.ultimate_exiting_timeout: "How long to wait for the graceful exit
+    before SIGKILL'ing the operator ... The countdown goes from when a graceful signal arrives ... None to disable";
+    docstring: "Intentional stopping via a stop-flag is ignored"):
+      ultimate.sleeps_until_shutdown       nothing is scheduled before the task is cancelled (= the shutdown begins);
+      ultimate.kill_scheduled_iff_unintended_and_timeout   then exactly one loop.call_later iff the stop flag is not raised (no flag
+                                           counts as not raised) and the timeout is not None (0 is a timeout);
+      ultimate.kill_after_exactly_the_timeout   it is call_later(<the timeout>, signal.pthread_kill, <this thread>, SIGKILL): the
+                                           graceful exit is bounded by the configured period;
+      ultimate.never_fails                 it ends without an error of its own.
+    """
+    if vc.nondet(2, 'stop_flag_checker | ultimate_termination') == 0:
+        return _u4_checker(vc)
+    return _u4_ultimate(vc)
+
+
+def _u4_checker(vc):
+    has_signal = vc.nondet(2, 'signal_flag given?') == 1
+    has_stop = (vc.nondet(2, 'stop_flag given?') == 1) if has_signal else True
+    results = [None, signal.SIGTERM, signal.SIGINT, Opaque('flag-value'), 0]
+    signal_flag = FakeFuture('signal_flag') if has_signal else None
+    stop_flag = Opaque('stop_flag') if has_stop else None
+    st = Ghost(cancel=None, tasks=[])
+
+    def wait_flag(flag):
+        return ('wait_flag-coro', flag)
+
+    def create_task(coro, **kw):
+        t = FakeFuture('stop-flag waiter', coro=coro)
+        st.tasks.append(t)
+        vc.emit('create_task', coro, t)
+        return t
+
+    async def aio_wait(fs, **kw):
+        fs = list(fs)
+        vc.emit('wait', fs, kw)
+        if not fs:
+            raise ValueError('Set of Tasks/Futures is empty.')
+        await suspend('asyncio.wait')
+        vc.emit('wait.returned')
+        k = vc.nondet(len(fs), 'which flag was raised first')
+        both = len(fs) > 1 and vc.nondet(2, 'the other one too?') == 1
+        for f in fs:
+            f._result = results[vc.nondet(len(results), f'{f.name} carries: None / SIGTERM / SIGINT / an object / 0')]
+        done = set(fs) if both else {fs[k]}
+        return done, set(fs) - done
+
+    def on_suspend(site):
+        if vc.nondet(2, 'the checker is cancelled while waiting?') == 1:
+            st.cancel = asyncio.CancelledError()
+            return st.cancel
+    ld = vc.load('kopf._core.reactor.running', 'stop_flag_checker', stubs={
+        'asyncio.create_task': create_task, 'asyncio.wait': aio_wait, 'aioadapters.wait_flag': wait_flag, 'logger': NullLogger()})
+    result, escaped = _run(vc, ld.fn(signal_flag=signal_flag, stop_flag=stop_flag), on_suspend)
+    tr = vc.trace
+    names = names_of(tr)
+    waits = [ev for ev in tr if ev[0] == 'wait']
+    vc.ensure('checker.waits_for_all_given_flags', len(waits) == 1 and len(st.tasks) == (1 if has_stop else 0))
+    for t in st.tasks:
+        vc.ensure('checker.waits_for_all_given_flags', t.coro == ('wait_flag-coro', stop_flag))
+    for ev in waits:
+        fs, kw = ev[1], ev[2]
+        want = ([signal_flag] if has_signal else []) + st.tasks
+        vc.ensure('checker.waits_for_all_given_flags', len(fs) == len(want) and all(any(f is w for f in fs) for w in want)
+                  and kw.get('return_when') == asyncio.FIRST_COMPLETED and kw.get('timeout') is None)
+    vc.canary('canary.checker.never_cancelled', st.cancel is None)
+    vc.ensure('checker.returns_only_on_flag_or_cancellation', 'wait.returned' in names or st.cancel is not None)
+    vc.ensure('checker.never_fails', escaped is None or escaped is st.cancel)
+    return ('checker', type(escaped).__name__)
+
+
+def _u4_ultimate(vc):
+    timeout = vc.opt('ultimate_exiting_timeout', vc.real)
+    settings = Opaque('settings', process=Opaque('process', ultimate_exiting_timeout=timeout))
+    stop_flag = [None, Opaque('stop_flag')][vc.nondet(2, 'stop_flag given?')]
+    raised = vc.fin('check_flag(stop_flag)', [False, True]) if stop_flag is not None else None
+    st = Ghost(cancel=None)
+    kill, ident = Opaque('signal.pthread_kill'), Opaque('this-thread-ident')
+
+    class ForeverEvent:
+        async def wait(self):
+            vc.emit('sleep-forever')
+            await suspend('forever')
+            raise AssertionError('a fresh event that nobody sets cannot be awaited to completion')
+
+    def check_flag(flag):
+        vc.emit('check_flag', flag)
+        return raised
+
+    def call_later(delay, fn, *args):
+        vc.emit('call_later', delay, fn, args)
+        return Opaque('timer-handle')
+
+    def on_suspend(site):
+        st.cancel = asyncio.CancelledError()          # the only way out of the sleep: the shutdown has begun
+        vc.emit('cancelled')
+        return st.cancel
+    ld = vc.load('kopf._core.reactor.running', 'ultimate_termination', stubs={
+        'asyncio.Event': ForeverEvent, 'aioadapters.check_flag': check_flag,
+        'asyncio.get_running_loop': lambda: Opaque('loop', call_later=call_later),
+        'signal.pthread_kill': kill, 'threading.get_ident': lambda: ident, 'logger': NullLogger()})
+    result, escaped = _run(vc, ld.fn(settings=settings, stop_flag=stop_flag), on_suspend)
+    tr = vc.trace
+    names = names_of(tr)
+    calls = [ev for ev in tr if ev[0] == 'call_later']
+    vc.ensure('ultimate.sleeps_until_shutdown', 'cancelled' in names and 'call_later' not in names[:names.index('cancelled')]
+              and names[0] == 'sleep-forever')
+    for ev in tr:
+        if ev[0] == 'check_flag':
+            vc.ensure('ultimate.kill_scheduled_iff_unintended_and_timeout', ev[1] is stop_flag)
+    intended = False if raised is None else Eq(raised, True)
+    want = And(Not(intended), timeout is not None)
+    vc.ensure('ultimate.kill_scheduled_iff_unintended_and_timeout', len(calls) <= 1)
+    vc.ensure('ultimate.kill_scheduled_iff_unintended_and_timeout', Iff(len(calls) == 1, want))
+    for ev in calls:
+        vc.ensure('ultimate.kill_after_exactly_the_timeout', ev[1] is timeout and ev[2] is kill and tuple(ev[3]) == (ident, signal.SIGKILL))
+    vc.canary('canary.ultimate.always_schedules', len(calls) == 1)
+    vc.canary('canary.ultimate.never_schedules', len(calls) == 0)
+    vc.ensure('ultimate.never_fails', escaped is None or escaped is st.cancel)
+    return ('ultimate', len(calls))
